@@ -657,9 +657,9 @@ fn main() {
         format!("{n}: {c:?} expect {e:?}")
     });
 
-    ctx.run_prop_with("build-sapling", move || gen::arb_case(max_n, Engine::Build), tier.pick(20_000, 500_000), 600, check_case);
-    ctx.run_prop_with("build-pczt", move || gen::arb_case(max_n, Engine::Pczt), tier.pick(9_000, 250_000), 600, check_case);
-    ctx.run_prop_with("build-deferred", move || gen::arb_deferred_case(max_n), tier.pick(6_000, 150_000), 600, check_case);
+    ctx.run_prop_with("build-sapling", move || gen::arb_case(max_n, Engine::Build), tier.pick(50_000, 500_000), 600, check_case);
+    ctx.run_prop_with("build-pczt", move || gen::arb_case(max_n, Engine::Pczt), tier.pick(24_000, 250_000), 600, check_case);
+    ctx.run_prop_with("build-deferred", move || gen::arb_deferred_case(max_n), tier.pick(16_000, 150_000), 600, check_case);
     // generator health (fractions: the quotas differ between tiers)
     for (sub, label, frac) in [
         ("build-sapling", "ok", 0.25),
